@@ -610,7 +610,11 @@ fn run_case(c: &Case) -> Result<(bool, bool, bool), Failure> {
 					if dir != 0 {
 						let mut prev = last_out.unwrap_or(if dir < 0 { f32::MAX } else { f32::MIN });
 						for (i, f) in out.iter().enumerate() {
-							let ok = if dir < 0 { f.left <= prev } else { f.left >= prev };
+							// (the gain is a decibel value held in f32: one ulp of it is 4e-7 of the amplitude, and
+							// prev + (cur - prev) * 1.0 need not round to cur - a step of that size against
+							// the direction of the fade is rounding, not a reversal)
+							let slack = prev.abs() * 2e-6 + 1e-12;
+							let ok = if dir < 0 { f.left <= prev + slack } else { f.left >= prev - slack };
 							ensure!(ok, "fade-monotone", "chunk {k} frame {i}: envelope went from {prev} to {} while {state_before:?}; case {c:?}", f.left);
 							prev = f.left;
 						}
@@ -859,7 +863,7 @@ impl Property for C03 {
 		"C03"
 	}
 	fn rule(&self) -> &'static str {
-		"each case plays one static or streaming sound (a looping DC sound whose output equals its gain, or a finite ramp) as Box<dyn Sound> and issues a history of pause / resume / resume_at (delayed, clock, missing clock) / stop / seek_to / seek_by / set_volume / set_playback_rate / set_loop_region commands with generated tweens (zero, sub-callback, several callbacks; all easings; immediate / delayed / clock starts) at arbitrary callback boundaries, with the sound's own start time immediate / delayed / clock / missing clock and an optional fade-in. A reference life-cycle machine written from the handle documentation runs alongside. After every callback: reported state within one callback of the reference; exact silence and frozen position while Paused / WaitingToResume / Stopped; Stopped is final (state, finished(), silence); DC envelope equals the reference fade (2e-5), is monotone during a fade and ends at exactly 0 / exactly the source value; stop is never lost and finite sounds end. Enumeration: every sequence of up to 3 (quick) / 4 (thorough) letters of a 10-letter alphabet x 3 spacings, for static and streaming, looping and finite. Through the manager: Stopped sounds are unloaded at the next callback and a capacity-1 track accepts a new sound; a quarter of the static, clock-free cases are repeated on the main track of a real manager (internal buffer 1..128, callback sizes that are not multiples of it) next to the same sound driven directly: states after every callback and every output frame must agree exactly. Non-trivial = a command arrives while a fade is in progress, or resume_at is used; distinct = distinct decoded choices."
+		"each case plays one static or streaming sound (a looping DC sound whose output equals its gain, or a finite ramp) as Box<dyn Sound> and issues a history of pause / resume / resume_at (delayed, clock, missing clock) / stop / seek_to / seek_by / set_volume / set_playback_rate / set_loop_region commands with generated tweens (zero, sub-callback, several callbacks; all easings; immediate / delayed / clock starts) at arbitrary callback boundaries, with the sound's own start time immediate / delayed / clock / missing clock and an optional fade-in. A reference life-cycle machine written from the handle documentation runs alongside. After every callback: reported state within one callback of the reference; exact silence and frozen position while Paused / WaitingToResume / Stopped; Stopped is final (state, finished(), silence); DC envelope equals the reference fade (2e-5), is monotone during a fade (to 2e-6 relative, two ulps of the f32 decibel value) and ends at exactly 0 / exactly the source value; stop is never lost and finite sounds end. Enumeration: every sequence of up to 3 (quick) / 4 (thorough) letters of a 10-letter alphabet x 3 spacings, for static and streaming, looping and finite. Through the manager: Stopped sounds are unloaded at the next callback and a capacity-1 track accepts a new sound; a quarter of the static, clock-free cases are repeated on the main track of a real manager (internal buffer 1..128, callback sizes that are not multiples of it) next to the same sound driven directly: states after every callback and every output frame must agree exactly. Non-trivial = a command arrives while a fade is in progress, or resume_at is used; distinct = distinct decoded choices."
 	}
 	fn assumptions(&self) -> Vec<String> {
 		vec![
